@@ -253,8 +253,63 @@ func driverEll(c *Ctx) {
 				try(func() { bad.FillVariables(map[string]interface{}{"...[0]": 1, "...[1]": 1, "...[2]": 2}) })
 			}
 		}
-		c.emit(i, ellEvent(g, t.Build(), counts))
+		if i%16 == 11 {
+			// very many ellipsis instances in one call: an outer count of 63..70 around two inner ellipses, one of them
+			// filled with 0 (or left alone in the twin fill below)
+			in1 := &GItem{F: "L", Kids: []*GItem{{F: "U1", Vals: []interface{}{"a"}}, {F: "", Var: "...[0]"}}}
+			in2 := &GItem{F: "L", Kids: []*GItem{{F: "BOOLEAN", Vals: []interface{}{"b"}}, {F: "", Var: "...[1]"}, {F: "", Var: "w"}}}
+			t = &GItem{F: "L", Kids: []*GItem{in1, in2, {F: "", Var: "...[2]"}, {F: "I2", Vals: []interface{}{"z"}}}}
+			counts = map[string]int{"...[0]": g.pick(3), "...[1]": g.pick(2), "...[2]": 63 + g.pick(8)}
+		}
+		built := t.Build()
+		c.emit(i, ellEvent(g, built, counts))
 		c.count("ell.cases")
+		if i%4 == 3 {
+			// the same template object filled again with a neighbouring assignment: a count of 0 left out or put in, one
+			// count one higher or lower (what one fill computes is of no use to the next)
+			twin := map[string]int{}
+			for k, v := range counts {
+				twin[k] = v
+			}
+			changed := false
+			for _, n := range names {
+				v, has := twin[n]
+				switch {
+				case has && v == 0:
+					delete(twin, n)
+					changed = true
+				case !has:
+					twin[n] = 0
+					changed = true
+				}
+				if changed {
+					break
+				}
+			}
+			if i%16 == 11 {
+				twin = map[string]int{"...[0]": counts["...[0]"], "...[2]": counts["...[2]"]}
+				if counts["...[1]"] != 0 {
+					twin["...[1]"] = 0
+				}
+				changed = true
+			}
+			if !changed {
+				for _, n := range names {
+					if v, has := twin[n]; has {
+						twin[n] = v + 1 - 2*(v%2)*g.pick(2)
+						if twin[n] < 0 {
+							twin[n] = 1
+						}
+						changed = true
+						break
+					}
+				}
+			}
+			if changed {
+				c.emit(i, ellEvent(g, built, twin))
+				c.count("ell.twin-fills")
+			}
+		}
 	}
 }
 
